@@ -145,8 +145,17 @@ Outcome run_forked(const Case &c) {
         struct rlimit co; co.rlim_cur = co.rlim_max = 0; setrlimit(RLIMIT_CORE, &co);
         alarm(g_wall_limit);
         set_report(fds[1], false);
-        exec_case(c);
-        finish_ok();
+        // nothing may escape from here: an exception leaving exec_case would otherwise unwind into rapidcheck's loop and turn
+        // this child into a second driver
+        try {
+            exec_case(c);
+            finish_ok();
+        } catch (const std::exception &e) {
+            std::string w = e.what(); if (w.size() > 300) w.resize(300);
+            violation("EXCEPTION", "an exception escaped from the code under test: %s", w.c_str());
+        } catch (...) {
+            violation("EXCEPTION", "a non-standard exception escaped from the code under test");
+        }
         _exit(0);
     }
     close(fds[1]);
@@ -223,8 +232,14 @@ int main(int argc, char **argv) {
         // the same budgets as in exploration, so that a replay of a hanging case ends by itself
         { struct rlimit rl; rl.rlim_cur = (rlim_t)g_cpu_limit * 3; rl.rlim_max = (rlim_t)g_cpu_limit * 3 + 2; setrlimit(RLIMIT_CPU, &rl); alarm(g_wall_limit > 120 ? 120 : g_wall_limit); }
         set_report(1, true);
-        exec_case(c);
-        finish_ok();
+        try {
+            exec_case(c);
+            finish_ok();
+        } catch (const std::exception &e) {
+            violation("EXCEPTION", "an exception escaped from the code under test: %s", e.what());
+        } catch (...) {
+            violation("EXCEPTION", "a non-standard exception escaped from the code under test");
+        }
         fflush(stdout);
         _exit(0);
     }
